@@ -161,6 +161,18 @@ Theorem C17_mode_0644 : forall (data : Type) (d : data) (open_ok body_ok : bool)
 Proof. exact mode_0644. Qed.
 Print Assumptions C17_mode_0644.
 
+(* what _validate_frames returns is well formed: [''] (the missing last frame of 'p..') only ever stands
+   in the second place of a RANGE, a LIST is never empty; and the model's "oracle value missing" error
+   is not a possible outcome of validation *)
+Theorem C17_validate_frames_wf : forall script a sel,
+  validate_frames script a = Ok sel -> wf_selector sel.
+Proof. exact validate_frames_wf. Qed.
+Print Assumptions C17_validate_frames_wf.
+
+Theorem C17_validate_frames_no_oracle_error : forall script a, validate_frames script a <> Err EOracle.
+Proof. exact validate_frames_no_oracle_error. Qed.
+Print Assumptions C17_validate_frames_no_oracle_error.
+
 (* the whole call: a successful saveframe leaves the umask as before and a file holding one entry per
    selected frame, keyed by distance (distinct keys), with the frame's own metadata and its filtered
    locals; a refused call leaves the file system untouched *)
